@@ -46,10 +46,12 @@ Definition upconvert_real (g : GR.groups) (k : GR.kerning) (gs : list str) : GR.
     [insert] = replace in place or append ([dict_insert]), [remove] = drop the key; two dictionaries
     are equal when they answer every lookup alike, values compared as plist values. *)
 Definition pd_del (k : str) (d : dict) : dict := filter (fun e => negb (str_eqb (fst e) k)) d.
-(** Equality of plist values is that of the plist crate ([Value: PartialEq], a [Dictionary] being a
-    map): the order of the keys of a dictionary, at any depth below dictionaries, is not
-    observable.  It is decided by a normal form: keys sorted recursively (through dictionaries, not
-    through arrays, as [util::recursive_sort_plist_keys] does).  The association-list type also
+(** Equality of plist values: a [Dictionary] is a map, the order of its keys is not observable
+    (the plist crate's [PartialEq] ignores it) — here for every dictionary reached through
+    dictionaries only, which are the ones [util::recursive_sort_plist_keys] reorders on writing; a
+    dictionary below an array keeps its key order through writer and reader and is compared with
+    it (so this equality is a little finer than the crate's).  It is decided by a normal form:
+    keys sorted recursively through dictionaries, not through arrays.  The association-list type also
     holds lists with a repeated key, which no [Dictionary] is; there only the first entry of a key
     can be looked up, and the normal form keeps that one ([dedupe]; the identity on dictionaries). *)
 Fixpoint dedupe (d : dict) : dict :=
